@@ -138,7 +138,7 @@ package processors
 //@ requires [registry-set] d.Registry != nil && DefInv(d.Registry)
 //@ requires [properties-wellformed] forall(k, int, implies(0 <= k && k < len(properties), PointOK(properties[k])), properties[k])
 //@ requires [properties-distinct] forall(j, int, forall(k, int, implies(0 <= j && j < k && k < len(properties), properties[j] != properties[k])))
-//@ assigns anyfield(component_definition.Property, Injects), MetasPos, PosSnap, Failed, PropsLen, PropsAt
+//@ assigns anyfield(component_definition.Property, Injects), MetasPos, MetasKey, PosSnap, Failed, PropsLen, PropsAt
 //@ ensures [no-error] result1 == nil
 //@ ensures [by-name-candidate] forall(k, int, implies(0 <= k && k < len(properties) && ByName(properties[k]), len(properties[k].Injects) == len(old(properties[k].Injects)) + 1 && properties[k].Injects[len(properties[k].Injects) - 1] == ite(d.Registry.DefDom[properties[k].TagVal] && RAssignable(RTypeOf(d.Registry.Def[properties[k].TagVal].Value), properties[k].Type), d.Registry.Def[properties[k].TagVal], nil)), properties[k])
 //@ ensures [by-type-sound] forall(k, int, forall(i, int, implies(0 <= k && k < len(properties) && (ByPtrType(properties[k]) || ByIfaceType(properties[k])) && len(old(properties[k].Injects)) <= i && i < len(properties[k].Injects), MetaOK(properties[k].Injects[i]) && d.Registry.DefDom[properties[k].Injects[i].Name()] && d.Registry.Def[properties[k].Injects[i].Name()] == properties[k].Injects[i] && ite(ByPtrType(properties[k]), RTypeOf(properties[k].Injects[i].Value) == TargetT(properties[k]), RImplements(RTypeOf(properties[k].Injects[i].Value), TargetT(properties[k])))), properties[k].Injects[i]), properties[k])
@@ -170,7 +170,7 @@ package processors
 //@ requires [registry-set] d.Registry != nil && DefInv(d.Registry)
 //@ requires [properties-wellformed] forall(k, int, implies(0 <= k && k < len(properties), PointOK(properties[k]) && properties[k].args != nil), properties[k])
 //@ requires [properties-distinct] forall(j, int, forall(k, int, implies(0 <= j && j < k && k < len(properties), properties[j] != properties[k])))
-//@ assigns anyfield(component_definition.Property, Injects), MetasPos, Failed, PropsLen, PropsAt
+//@ assigns anyfield(component_definition.Property, Injects), MetasPos, MetasKey, Failed, PropsLen, PropsAt
 //@ ensures [no-error] result1 == nil
 //@ ensures [func-candidates-sound] forall(k, int, forall(i, int, implies(0 <= k && k < len(properties) && (FuncByPtr(properties[k]) || FuncByIface(properties[k])) && len(old(properties[k].Injects)) <= i && i < len(properties[k].Injects), MetaOK(properties[k].Injects[i]) && d.Registry.DefDom[properties[k].Injects[i].Name()] && d.Registry.Def[properties[k].Injects[i].Name()] == properties[k].Injects[i] && RHasMethod(RTypeOf(properties[k].Injects[i].Value), properties[k].TagVal) && ite(FuncByPtr(properties[k]), RTypeOf(properties[k].Injects[i].Value) == TargetT(properties[k]), RImplements(RTypeOf(properties[k].Injects[i].Value), TargetT(properties[k])))), properties[k].Injects[i]), properties[k])
 //@ ensures [earlier-candidates-kept] forall(k, int, forall(i, int, implies(0 <= k && k < len(properties) && 0 <= i && i < len(old(properties[k].Injects)), len(properties[k].Injects) >= len(old(properties[k].Injects)) && properties[k].Injects[i] == oldat(old(properties[k].Injects), i)), properties[k].Injects[i]), properties[k])
